@@ -670,8 +670,22 @@ def case_pdfs(col, p):
             col.violation('C17:PDFs:biv_ind_gamma:compiled_vs_python', dict(p, params=params), {'maxrel': float(np.nanmax(np.abs(a / np.where(b == 0, 1, b) - 1)))})
         if not np.allclose(a, ref, rtol=1e-9, atol=1e-300):
             col.violation('C17:PDFs:biv_ind_gamma:vs_scipy', dict(p, params=params), {'maxrel': float(np.nanmax(np.abs(a / np.where(ref == 0, 1, ref) - 1)))})
+    # every rectangular pair of vector lengths (the plotting helpers and marginalisations evaluate the densities on non-square grids); the shapes
+    # with fewer x than y values first
+    shapes = [nm for nm in itertools.product(range(1, 10), repeat=2) if (nm[0] > nm[1]) == bool(p.get('wide'))]
+    for (nx, ny) in shapes:
+        for nm, fc, fpy, params in (('biv_lognormal', PDFs.biv_lognormal, PDFs.biv_lognormal_py, [0.0, 2.0, 0.5, 1.5, 0.5]),
+                                    ('biv_ind_gamma', PDFs.biv_ind_gamma, PDFs.biv_ind_gamma_py, [0.4, 2.0, 5.0, 1.5])):
+            x, y = xs[:nx].copy(), xs[::-1][:ny].copy()
+            a = np.asarray(fc(x, y, params), dtype=float)
+            b = np.asarray(fpy(x, y, params), dtype=float)
+            col.tick(transitions=2)
+            n += 1
+            if a.shape != b.shape or not np.allclose(a, b, rtol=1e-10, atol=1e-300):
+                col.violation('C17:PDFs:%s:compiled_vs_python' % nm, dict(p, params=params, lengths=(nx, ny)),
+                              {'shape_compiled': a.shape, 'shape_python': b.shape})
     col.tick(states=n, traces=n)
-    col.distinct('nontrivial', ('pdfs',))
+    col.distinct('nontrivial', ('pdfs', bool(p.get('wide'))))
 
 
 CASES = {'schedule': case_schedule, 'real': case_real_processes, 'merge': case_merge, 'quad1d': case_quad1d, 'quad2d': case_quad2d,
@@ -743,6 +757,7 @@ def run(ctx):
                 cases.append({'kind': 'quad2d', 'J': J, 'bounds': (0.1, 50.0), 'additional': [4.0, 2.0] if sel else [], 'sel': sel, 'pdf_index': pi, 'wtol': None})
     cases.append({'kind': 'mixture'})
     cases.append({'kind': 'pdfs'})
+    cases.append({'kind': 'pdfs', 'wide': True})      # more x than y values: in a process of its own
     explore.pmap(ctx, _dispatch, cases, chunk=1)
     if ctx.counters.get('schedule_caps_hit'):
         ctx.cap_hit('execution cap reached in %d preemption-bounded (unpruned) explorations; all stateful explorations are complete' % ctx.counters['schedule_caps_hit'])
